@@ -222,6 +222,18 @@ func Render(prog []Stmt, mode string) Rendered {
 			body.WriteString("\tsource = " + r.source(s.Src, s.Asset, 1) + "\n")
 			body.WriteString("\tdestination = " + r.dest(s.Dst, s.Asset, 1) + "\n")
 			body.WriteString(")\n")
+		case "save":
+			var amount string
+			if s.Amt == AllAmt {
+				if mode == "vars" {
+					amount = "[" + r.variable("asset", s.Asset) + " *]"
+				} else {
+					amount = "[" + s.Asset + " *]"
+				}
+			} else {
+				amount = r.monetary(s.Asset, s.Amt)
+			}
+			body.WriteString("save " + amount + " from " + r.account(s.A) + "\n")
 		case "txmeta":
 			body.WriteString(fmt.Sprintf("set_tx_meta(%q, %s)\n", s.Key, r.value(s.Val)))
 		case "acctmeta":
